@@ -32,11 +32,44 @@ def _compile(path):
         with open(path) as f:
             code = compile(f.read(), path, "exec")
         _code_cache[path] = code
+        if K._mon_on and "/loky/" in path:
+            K.enable_line_mode([code])
     return code
 
 
 class Recorder(list):
     pass
+
+
+class OrderedSet:
+    """set with insertion-order iteration (deterministic for objects hashed by address)"""
+
+    def __init__(self, it=()):
+        self._d = dict.fromkeys(it)
+
+    def add(self, x):
+        self._d[x] = None
+
+    def discard(self, x):
+        self._d.pop(x, None)
+
+    def remove(self, x):
+        del self._d[x]
+
+    def __iter__(self):
+        return iter(list(self._d))
+
+    def __len__(self):
+        return len(self._d)
+
+    def __contains__(self, x):
+        return x in self._d
+
+    def copy(self):
+        return OrderedSet(self._d)
+
+    def clear(self):
+        self._d.clear()
 
 
 class TracedDict(dict):
@@ -433,6 +466,10 @@ def build_world(sched, cpu_count=2, psutil=True, environ=None):
     w.sources["multiprocessing.util"] = (STDLIB + "/multiprocessing/util.py", False)
     w.sources["multiprocessing.queues"] = (STDLIB + "/multiprocessing/queues.py", False)
     procm = w.get("multiprocessing.process")
+    # the registry of child processes is a set of objects hashed by address: its iteration
+    # order (the order in which Process.start()/_cleanup() polls the children) would differ
+    # from run to run; an insertion-ordered set makes the harness own that order
+    procm._children = OrderedSet()
     util = w.get("multiprocessing.util")
     mp.current_process = procm.current_process
     mp.active_children = procm.active_children
